@@ -68,7 +68,7 @@ def run(ctx):
     loads = [("pipeline", "TestVerifPipeline$", {}),
              ("abaco", "TestVerifAbaco$", {"VERIF_SCEN": sp1, "VERIF_NRANDOM": 25 if q else 400, "VERIF_NOSYNC": 1}),
              ("lancero", "TestVerifLancero$", {"VERIF_SCEN": sp2, "VERIF_NRANDOM": 10 if q else 150}),
-             ("requests", "TestVerifRequests$", {}),
+             ("requests", "TestVerifRequests$", {"VERIF_NORESTART": 1}),
              ("stream", "TestVerifStream$", {"VERIF_SCEN": sp3}),
              ("writing", "TestVerifWC$", {"VERIF_NRANDOM": 15 if q else 200}),
              ("status", "TestVerifStatusThread$", {"VERIF_REAL_CLIENTUPDATER": 1})]
